@@ -561,4 +561,11 @@ theorem live_throwWithFuel (err : Addr) : Live (throwFuel >>= fun n => throwF n 
   rw [throwF_fuel (fuelOf fr) (fuelOf s.frames) err (wf s fr tr) hs2 hs3]
   exact (live_throwF (fuelOf s.frames) err).elim s fr tr h
 
+theorem live_throwWithFuel_bind {β} (err : Addr) (f : Option Addr → M β) (hf : ∀ r, Live (f r)) :
+    Live (throwFuel >>= fun n => (throwF n err >>= f)) := by
+  have : (throwFuel >>= fun n => (throwF n err >>= f)) = ((throwFuel >>= fun n => throwF n err) >>= f) := by
+    rw [bind_assoc]
+  rw [this]
+  exact Live.bind (live_throwWithFuel err) hf
+
 end UgoVerif.VM
